@@ -125,6 +125,7 @@ type Gate struct {
 	blocking   int32
 	mu         sync.Mutex
 	release    chan struct{}
+	single     map[int64]chan struct{} // per-request release (ReleaseOne)
 	overlapped int64
 	entered    int64
 }
@@ -146,8 +147,19 @@ func (g *Gate) Enter(id int64, holdUs int64) {
 	if atomic.LoadInt32(&g.blocking) == 1 {
 		g.mu.Lock()
 		ch := g.release
+		if g.single == nil {
+			g.single = map[int64]chan struct{}{}
+		}
+		one := g.single[id]
+		if one == nil {
+			one = make(chan struct{})
+			g.single[id] = one
+		}
 		g.mu.Unlock()
-		<-ch
+		select {
+		case <-ch:
+		case <-one:
+		}
 	} else if holdUs > 0 {
 		time.Sleep(time.Duration(holdUs) * time.Microsecond)
 	} else {
@@ -171,6 +183,25 @@ func (g *Gate) Release() {
 }
 
 func (g *Gate) Inside() int { return int(atomic.LoadInt32(&g.inside)) }
+
+// ReleaseOne lets exactly the request with this id leave the gate.
+func (g *Gate) ReleaseOne(id int64) {
+	g.mu.Lock()
+	if g.single == nil {
+		g.single = map[int64]chan struct{}{}
+	}
+	one := g.single[id]
+	if one == nil {
+		one = make(chan struct{})
+		g.single[id] = one
+	}
+	g.mu.Unlock()
+	select {
+	case <-one:
+	default:
+		close(one)
+	}
+}
 
 // Finding of a storm; Class "iso" belongs to C06, "cap" to C17.
 type StormFinding struct {
@@ -210,7 +241,19 @@ type Storm struct {
 	findings []StormFinding
 	dones    []*done
 	obsCalls int64
-	faults   bool // set during the storm phase: requests may carry Fail2 / Dirty
+	faults   bool     // set during the storm phase: requests may carry Fail2 / Dirty
+	goidReq  sync.Map // goroutine id -> request id (only to learn which instance a request got)
+	reqTag   sync.Map // request id -> instance tag
+}
+
+// Hook feeds the shadow and remembers which instance the calling request was given.
+func (s *Storm) Hook(point string, tag int64) {
+	if point == "pool.get.locked" {
+		if id, ok := s.goidReq.Load(goid()); ok {
+			s.reqTag.Store(id, tag)
+		}
+	}
+	s.shadow.Hook(point, tag)
 }
 
 func (s *Storm) find(class, key, what string, extra interface{}) {
@@ -249,7 +292,7 @@ func NewStorm(k *fw.Case, jitter bool) (*Storm, error) {
 			}
 		}
 	}
-	SetSink(s.shadow)
+	SetSink(s)
 	apis := map[string]interface{}{
 		"gate": s.gate.Enter,
 		"obs": func(id, token int64) {
@@ -343,7 +386,10 @@ func (s *Storm) fire(r *rand.Rand, c trace.Call, fail, boom bool, holdUs int64, 
 		}
 	}
 	d.callSeq = atomic.AddInt64(&s.seq, 1)
+	g := goid()
+	s.goidReq.Store(g, id)
 	out := s.t.Invoke(c, trace.NewLog())
+	s.goidReq.Delete(g)
 	d.retSeq = atomic.AddInt64(&s.seq, 1)
 	d.res, d.err, d.pan = out.Result, out.Err, out.Panic
 	d.snap = map[string]interface{}{}
@@ -564,6 +610,49 @@ func (s *Storm) Run(clients, perClient int, faults bool) {
 			return
 		}
 	}
+	// phase 1c (half of the storms, needs hooks): exactly one instance is handed back while a
+	// request waits - an ADDITIONAL instance (tag >= min) - and the waiter must be admitted
+	// although every initial instance is still busy
+	if HooksLinked() && s.r.Intn(2) == 0 {
+		firstID := atomic.LoadInt64(&s.nextID)
+		wg1, ok1 := s.saturate(max, "saturation before a single hand-back")
+		if !ok1 {
+			s.gate.Release()
+			return
+		}
+		// the waiter
+		wwg := &sync.WaitGroup{}
+		wwg.Add(1)
+		rrw := rand.New(rand.NewSource(s.r.Int63()))
+		cw := s.genCall(rrw, true)
+		enteredBefore := atomic.LoadInt64(&s.gate.entered)
+		go func() {
+			defer wwg.Done()
+			s.fire(rrw, cw, false, false, 0, nil)
+		}()
+		time.Sleep(time.Duration(300+s.r.Intn(700)) * time.Microsecond)
+		// a held request that sits on an additional instance
+		var pick int64 = -1
+		for id := firstID + 1; id <= firstID+int64(max); id++ {
+			if tg, ok := s.reqTag.Load(id); ok && tg.(int64) >= s.min {
+				pick = id
+				break
+			}
+		}
+		if pick >= 0 {
+			s.gate.ReleaseOne(pick)
+			k.Count("single_handbacks_of_an_additional_instance", 1)
+			admitted := waitUntil(progressBound, func() bool { return atomic.LoadInt64(&s.gate.entered) > enteredBefore })
+			if !admitted {
+				s.find("cap", "waiter-not-admitted-after-handback", fmt.Sprintf("(%d,%d) pool: all instances busy, one request waiting; the request holding additional instance %v finished and handed it back, but the waiter was not admitted within %v", s.min, s.max, func() interface{} { v, _ := s.reqTag.Load(pick); return v }(), progressBound), dump())
+			}
+		}
+		s.gate.Release()
+		if !waitDone(wg1, progressBound) || !waitDone(wwg, progressBound) {
+			s.find("cap", "waiters-stuck", "requests did not complete after the gate was opened (single hand-back phase)", dump())
+			return
+		}
+	}
 	// phase 2: storm
 	s.faults = faults
 	var cwg sync.WaitGroup
@@ -579,6 +668,12 @@ func (s *Storm) Run(clients, perClient int, faults bool) {
 				hold := int64(0)
 				if rr.Intn(3) == 0 {
 					hold = int64(rr.Intn(300))
+				}
+				if faults && c.UsesStopTag() && rr.Intn(5) == 0 {
+					// API misuse that panics in the caller's goroutine: the request "ends with a panic"
+					c.NilStag = true
+					boom = true
+					s.k.Count("requests_ending_in_a_caller_panic", 1)
 				}
 				var keys []string
 				for _, kx := range []string{"k1", "k2", "k3", "k4"} {
